@@ -382,7 +382,8 @@ def _run(ctx, pool, procs):
     for scn, bound, share, nsample, do_enum in plans:
         deadline = min(time.time() + share * budget, t0 + budget)
         t1 = time.time()
-        acc = explore_parallel(pool, scn, bound, deadline, procs)
+        acc = explore_parallel(pool, scn, bound, deadline, procs,
+                               total_cap=(None if ctx.tier != "quick" or do_enum else 250))
         exhaustive = not acc.cut
         n_enum = acc.runs
         if nsample and time.time() < t0 + budget:
